@@ -61,7 +61,17 @@ def run_case(case):
 def _stored(b, candidates):
     """ids for which the store holds anything at all (a whole recording or debris)."""
     if b.box.kind == 'mem':
-        return sorted(b.box.cassette._recordings)
+        from playback.exceptions import NoSuchRecording
+        out = []
+        for rid in candidates:
+            try:
+                b.box.cassette.get_recording_metadata(rid)
+                out.append(rid)
+            except NoSuchRecording:
+                pass
+            except Exception:
+                out.append(rid)   # something is there, though not a whole recording
+        return sorted(out)
     import os
     names = os.listdir(b.box.dir)
     return sorted(rid for rid in candidates if any(rid.split('/')[-1] in fn for fn in names))
